@@ -10,7 +10,7 @@ from rv import oracles as O, gen
 LEVEL = "exploration"
 RULE = ("greedy, kk, multifit (iterations in {1,2,3,5,10,20}), round-robin on small instances with exhaustive optimum (n <= 9, k <= 4), planted perfect partitions "
         "(k 2..8, up to 48 items, T up to 10^6), the tight LPT family, the list-scheduling killer presented ascending, and adaptive ratio-climbing (hill-climb one value at a time "
-        "to maximise the observed ratio heuristic/optimum); non-trivial = the heuristic's largest sum differs from the optimum; distinct on (algorithm, iterations, numbins, value sequence)")
+        "to maximise the observed ratio heuristic/optimum); Karmarkar-Karp additionally on 4-6 bins / 9-12 small items judged against an UPPER bound on the optimum from validated partitions (certificate); non-trivial = the heuristic's largest sum differs from the optimum; distinct on (algorithm, iterations, numbins, value sequence)")
 ASSUMPTIONS = ["ratio bounds are checked for k >= 2 only", "bounds are loose: quality regressions inside the bounds are C14's business"]
 FLOORS = {"quick": {"distinct_nontrivial": 5000}, "thorough": {"distinct_nontrivial": 25000}}
 ALGS = ("greedy", "kk", "multifit", "roundrobin")
@@ -127,6 +127,51 @@ def draw(rng, alg):
     return case
 
 
+def judge_certificate(case, ctx):
+    """
+    Beyond the exhaustive oracle's size (4-6 bins, 9-12 items): the optimal largest sum is bounded from ABOVE by the largest sum of any validated partition
+    (here: complete greedy with the min-max objective, greedy, multifit). heuristic_max > ratio * upper_bound implies heuristic_max > ratio * OPT: a sound refutation.
+    """
+    alg, k, vals = case["alg"], case["k"], case["values"]
+    ctx.evaluated()
+    best_ub = None
+    got = None
+    for a, extra in ((alg, {}), ("cg", {"objective": ["minmax", None], "cg_mask": 11}), ("greedy", {}), ("multifit", {"iterations": 10})):
+        r, names, vmap = C.run_partition_case(dict(case, alg=a, **extra), "PartitionAndSumsTuple", ctx=ctx, pres="list", timeout=4)
+        if r.timeout or not r.ok:
+            if a == alg:
+                if r.timeout:
+                    ctx.inconc("timeout", case)
+                else:
+                    ctx.violation("exception", alg, case, C.exc_witness(r, case) if r.exc is not None else {"none": True})
+                return
+            continue
+        lists = r.value[1]
+        if sorted(x for b in lists for x in b) != sorted(vals) or len(lists) > k:
+            if a == alg:
+                ctx.violation("not_a_partition", alg, case, {"bins": lists[:10]})
+                return
+            continue
+        s = [sum(b) for b in lists] + [0] * (k - len(lists))
+        if a == alg:
+            got = s
+        if best_ub is None or max(s) < best_ub[0]:
+            best_ub = (max(s), a)
+    if got is None or best_ub is None:
+        return
+    mx, mn = max(got), min(got)
+    ub, src = best_ub
+    w = {"sums": got, "numbins": k, "opt_max_upper_bound": ub, "upper_bound_from": src}
+    if mx - mn > max(vals):
+        ctx.violation("gap_exceeds_largest_item", alg, case, dict(w, gap=mx - mn, largest_item=max(vals)))
+        return
+    if alg in ("greedy", "kk") and mx > (F(4, 3) - F(1, 3 * k)) * ub:
+        ctx.violation("max_ratio_exceeded", alg, case, dict(w, bound=float((F(4, 3) - F(1, 3 * k)) * ub), note="OPT <= upper bound from a validated partition"))
+        return
+    ctx.held(key=(alg, "cert", k, tuple(vals)), nontrivial=mx != ub, cls=f"{alg}/certificate", sample={"case": case, **w})
+    ctx.counters["certificate_cases"] += 1
+
+
 def climb(rng, alg, ctx, steps=40):
     """W-climb: hill-climb the observed ratio max/OPT_max from a random start (exhaustive optimum, n <= 8, k <= 3)."""
     k = rng.choice([2, 3, 3, 4])
@@ -163,6 +208,13 @@ def run_shard(spec, rng, ctx):
     i = 0
     while i < spec["max_cases"] and C.now() < end:
         alg = ALGS[i % 4]
+        if alg == "kk" and i % 12 != 1:
+            # Karmarkar-Karp beyond the exhaustive oracle: 4-6 bins, 9-12 small items (its rare ordering defects need >= 4 bins and >= 9 items)
+            k = rng.choice([4, 5, 5, 5, 6])
+            judge_certificate({"kind": "partition", "alg": "kk", "k": k, "values": [rng.randint(1, rng.choice([8, 12, 20])) for _ in range(rng.randint(9, 12))],
+                               "cls": "certificate", "pres": "list", "pres_seed": 0}, ctx)
+            i += 1
+            continue
         if i % 10 == 9 and alg != "roundrobin":
             climb(rng, alg, ctx)
         else:
